@@ -6,6 +6,7 @@ from harness import common as C
 
 ID = 'C12'
 PROPS_V = 'C12/Props.v'
+COQCHK = 'norec'   # closure rests on Reals (and Interval): full coqchk takes tens of minutes
 LEVEL = 'proof'
 TRUSTED = [
     'hand-written model C12/Model.v (transliteration of mangle.is_cap_used/is_in_polygon/is_in_window/set_use_caps and of '
@@ -304,7 +305,7 @@ def gen_sweep_job(rng, n):
 # ---------------------------------------------------------------- set_use_caps jobs
 
 def gen_setuse_job(rng):
-    n = rng.randint(1, 6)
+    n = rng.choice([1, 2, 3, 3, 4, 4, 5, 6])
     xs, cms, dupkinds = [], [], set()
     for j in range(n):
         t = rng.random()
@@ -552,8 +553,8 @@ def correspond(ctx, proof_ok=True):
                         C.coq_list([poly_t(g) for g in got]))))
                     count('balkans')
 
-    # heavy cases (whole polygon lists) in shards of bounded text size, the rest 150 per shard
-    cc = C.CoqCases(ctx.work, HEADER, 'run_cases', shard=120)
+    # heavy cases (whole polygon lists) in shards of bounded text size, the rest 120 per shard; one pool of
+    # NPROC coqc processes over all shards, heaviest first
     verdicts = [None] * len(terms)
     heavy = [k for k, (_, info, _) in enumerate(terms) if info['what'] in ('is_in_window', 'is_in_polygon', 'balkans')]
     hs = set(heavy)
@@ -568,23 +569,34 @@ def correspond(ctx, proof_ok=True):
         size += len(terms[k][2])
     if cur:
         groups.append(cur)
+    groups += [light[i:i + 120] for i in range(0, len(light), 120)]
+    import os
+    import time as _time
     from concurrent.futures import ThreadPoolExecutor
 
     def run_group(gi_g):
         gi, g = gi_g
-        sub = C.CoqCases(ctx.work, HEADER, 'run_cases', shard=len(g))
-        return sub.run([terms[k][2] for k in g], tag='heavy%04d' % gi)
-    import time as _time
+        path = os.path.join(ctx.work, 'shard_%04d.v' % gi)
+        with open(path, 'w') as f:
+            f.write(HEADER + '\nDefinition cases_0 := [\n  ' + ';\n  '.join(terms[k][2] for k in g) + '\n].\n')
+            f.write('Eval vm_compute in (run_cases cases_0).\n')
+        rc, out = C.coqc_file(path, 900)
+        if rc != 0:
+            raise C.CoqEvalError('coqc failed on %s:\n%s' % (path, out[-3000:]))
+        lst = C.parse_nat_list(out)
+        if lst is None or len(lst) != len(g):
+            raise C.CoqEvalError('unparsable answer from %s (%r)' % (path, out[-500:]))
+        return lst
     t0 = _time.time()
+    order = sorted(range(len(groups)), key=lambda gi: -sum(len(terms[k][2]) for k in groups[gi]))
     with ThreadPoolExecutor(max_workers=C.NPROC) as ex:
-        futs = [ex.submit(run_group, (gi, g)) for gi, g in enumerate(groups)]
-        fl = ex.submit(cc.run, [terms[k][2] for k in light], 'light')
-        for g, f in zip(groups, futs):
-            for k, v in zip(g, f.result()):
+        for gi, lst in zip(order, ex.map(run_group, [(gi, groups[gi]) for gi in order])):
+            for k, v in zip(groups[gi], lst):
                 verdicts[k] = v
-        for k, v in zip(light, fl.result()):
-            verdicts[k] = v
-    cc.coq_seconds = _time.time() - t0
+
+    class _T:
+        coq_seconds = _time.time() - t0
+    cc = _T
     ctx.coverage['coq_eval_s'] = round(cc.coq_seconds, 1)
     evaluations = 0
     for (ji, info, t) in terms:
@@ -645,7 +657,7 @@ def correspond(ctx, proof_ok=True):
             elif got == py_set_use_caps(j, index_bug=True, no_abs=True) and got != ref:
                 sig = SIG_IDX
             else:
-                sig = 'C12:set_use_caps:%s:impl=%s:%s' % (j['ilk'], 'ok' if 'ok' in r else r['err'], 'property' if found else 'model')
+                sig = 'C12:set_use_caps:%s:%s' % ('wrong-bits' if 'ok' in r else 'impl=' + r['err'], 'property' if found else 'model')
             rep.update({'job': j, 'impl_result': r, 'expected_use_caps': ref, 'coq_case': t})
             report(sig, 'set_use_caps(%d caps, index_list=%s, %s) gave %s, the selected bits minus later doubles are %s'
                    % (len(j['poly']['cm']), j['index_list'], j['opts'], got, ref), rep, found)
@@ -673,8 +685,8 @@ def correspond(ctx, proof_ok=True):
             mi, ni = info['sweep']
             exp = r['sweep'][mi][ni]
             raised = isinstance(exp, dict)
-            sig = 'C12:is_in_polygon:mask-x-ncaps-sweep:%s:%s' % ('impl=' + exp['err'] if raised else 'point=' + kind,
-                                                                 'property' if found else 'model')
+            sig = 'C12:is_in_polygon:%s:%s' % ('route=kwargs:impl=' + exp['err'] if raised else 'wrong-answer',
+                                               'property' if found else 'model')
             if not raised and pt is not None and nan_cause(r, 'cart', keep[pi]):
                 sig = SIG_NAN
             rep.update({'job': dict({k: j[k] for k in ('f', 'x', 'cm', 'pts')}, masks=[j['masks'][mi]], ncaps_list=[j['ncaps_list'][ni]]),
@@ -699,8 +711,7 @@ def correspond(ctx, proof_ok=True):
             summary = ('%s: point (%s, kind %s) has a float dot product outside [-1,1] with a cap centre; arccos gives NaN and the '
                        'point is reported outside a cap that contains it' % (what, pt, kind))
         else:
-            sig = 'C12:%s:point=%s:%s' % (what, kind.split('-')[0].split('+')[0] if kind.startswith('boundary') else kind,
-                                          'property' if found else 'model')
+            sig = 'C12:%s:wrong-answer:%s' % (what, 'property' if found else 'model')
             summary = '%s answer differs from the caps\' definition at point %s (kind %s, route %s, input %s)' % (
                 what, pt, kind, route, info['mode'])
         rep.update({'point': pt, 'point_kind': kind, 'route': route, 'input': info['mode'], 'coq_case': t[:20000]})
